@@ -9,6 +9,7 @@ use std::path::PathBuf;
 pub mod alpha;
 pub mod subj;
 pub mod mvr;
+pub mod refs;
 
 pub struct ReplayReq {
 	pub system: String,
